@@ -9,7 +9,7 @@ from ..real.env import reset_globals
 
 MODULE = "NadaVerif.Props.C07"
 TRANSLATORS = None
-THEOREMS = [f"NadaVerif.C07.{n}" for n in ("nonliterals_oblivious", "array_iteration_raises", "array_walks_raise", "table_covers", "literal_bool_ok")]
+THEOREMS = [f"NadaVerif.C07.{n}" for n in ("nonliterals_oblivious", "array_iteration_raises", "array_walks_raise", "membership_raises", "table_covers", "literal_bool_ok")]
 
 OPS = {"__eq__": operator.eq, "__ne__": operator.ne, "__lt__": operator.lt, "__le__": operator.le,
        "__gt__": operator.gt, "__ge__": operator.ge}
@@ -148,6 +148,8 @@ def real_routes(cls, provenance):
     out[("hash", "")] = all_raise([lambda: {x}, lambda: {x: 1}, lambda: x in {1: 2}, lambda: hash(x)])
     out[("reversed", "")] = all_raise([lambda: list(reversed(x))])
     out[("indexwalk", "")] = all_raise([lambda: [x[i] for i in range(len(x))]])
+    probe = SecretInteger(RawInput("probe", party))
+    out[("contains", "")] = all_raise([lambda: probe in x, lambda: probe not in x, lambda: 1 if probe in x else 2])
     for other in T3.OTHERS:
         try:
             y = T3.other(other, cls, party)
@@ -453,6 +455,8 @@ def run(res, tier):
                         bad = "a truth test of a non-literal Nada value did not raise"
                     elif route == "iter" and name == "Array" and outc != "raises":
                         bad = "iterating over a Nada array did not raise"
+                    elif route == "contains" and outc != "raises":
+                        bad = "a membership test with a non-literal probe (probe in x) did not raise"
                     elif route == "hash" and outc != "raises":
                         bad = "hashing a non-literal Nada value did not raise: membership in a set / dict silently answers by identity"
                     elif route in OPS and outc == "silent":
